@@ -24,7 +24,8 @@ func GenerateStatus(r *lp.Rng, index int) *Design {
 	d.Services = append(d.Services, s)
 	for _, code := range SuccessStatuses {
 		s.Methods = append(s.Methods, &Method{Name: fmt.Sprintf("ok_%d", code),
-			HTTP: &HTTPMap{Verb: "GET", Path: fmt.Sprintf("/ok/%d", code), Responses: []*Resp{{Code: code}}}})
+			// every third success status is given inside the response DSL: Response(func() { Code(202) })
+			HTTP: &HTTPMap{Verb: "GET", Path: fmt.Sprintf("/ok/%d", code), Responses: []*Resp{{Code: code, FuncCode: (code+index)%3 == 0}}}})
 	}
 	// the error statuses in groups of nine: a method may not map two errors of one type onto one status with different shapes, and
 	// long chains of cases are what the generated encoders look like in practice
